@@ -3,6 +3,7 @@ package main
 import (
 	"fmt"
 	"go/token"
+	"go/types"
 	"strings"
 
 	"golang.org/x/tools/go/ssa"
@@ -373,18 +374,50 @@ func c20r2(c *Ctx) {
 	}
 }
 
-// c20AppendedChans: mu.Value == append(inFlight[key], ch…): returns the appended elements.
+// c20AppendedChans: mu.Value == append(<current inFlight[key]>, ch…): returns the appended elements.
+// The extended slice is the entry's current value: read by a lookup of the same map under the same
+// key (in place, or earlier into a temporary — plain or comma-ok form) with no write to the map and
+// no release of the lock between that read and the store.
 func (p *Program) c20AppendedChans(mu *ssa.MapUpdate) ([]ssa.Value, string) {
-	args, ok := builtinCall(asInstr(stripConv(mu.Value)), "append")
+	args, ok := builtinCall(asInstr(stripConv(p.c12Resolve(mu.Value))), "append")
 	if !ok || len(args) != 2 {
 		return nil, "stored value is not append(inFlight[image], recv)"
 	}
-	lk, isLk := stripConv(args[0]).(*ssa.Lookup)
-	if !isLk {
+	var lk *ssa.Lookup
+	switch x := stripConv(p.c12Resolve(args[0])).(type) {
+	case *ssa.Lookup:
+		if !x.CommaOk {
+			lk = x
+		}
+	case *ssa.Extract:
+		if l, isLk := x.Tuple.(*ssa.Lookup); isLk && l.CommaOk && x.Index == 0 {
+			lk = l
+		}
+	}
+	if lk == nil {
 		return nil, "append does not extend the current inFlight[image]"
 	}
-	if _, is := c20IsInFlight(lk.X); !is || !p.strictSame(lk.Index, mu.Key) {
+	lkBase, is := c20IsInFlight(lk.X)
+	muBase, _ := c20IsInFlight(mu.Map)
+	if !is || !p.strictSame(lk.Index, mu.Key) || muBase == nil || !p.sameValue(lkBase, muBase) {
 		return nil, "append extends a different entry than the one stored to (already registered receivers would be lost)"
+	}
+	for _, in := range between(lk, mu) {
+		switch x := in.(type) {
+		case *ssa.MapUpdate:
+			if _, is := c20IsInFlight(x.Map); is {
+				return nil, "inFlight is written at " + p.IPos(in) + " between reading the entry and storing the extended slice (receivers registered in between would be lost)"
+			}
+		case *ssa.Call:
+			if dargs, isDel := builtinCall(x, "delete"); isDel && len(dargs) == 2 {
+				if _, is := c20IsInFlight(dargs[0]); is {
+					return nil, "an inFlight entry is deleted at " + p.IPos(in) + " between reading the entry and storing the extended slice"
+				}
+			}
+		}
+	}
+	if ok, why := p.lockNotReleasedBetween(lk, mu, c20Lock); !ok {
+		return nil, "the lock is released between reading inFlight[image] and storing the extended slice (receivers registered in the gap would be lost): " + why
 	}
 	elems, ok := sliceElems(args[1])
 	if !ok {
@@ -708,6 +741,275 @@ func c20ParamField(p *Program, fn *ssa.Function, v ssa.Value, field string) bool
 	return false
 }
 
+// c20Where locates a value: the function it lives in and, for a helper, the call through which that
+// helper was entered from the function above (root: the broadcasting function; typ: the type of the
+// response value that is sent).
+type c20Where struct {
+	fn     *ssa.Function
+	call   *ssa.Call
+	parent *c20Where
+	typ    types.Type
+	// barrier: head of the broadcast loop (root only): a definition that reaches the send around
+	// the loop was made for an earlier receiver
+	barrier *ssa.BasicBlock
+}
+
+// c20WFact is a guard fact together with the function activation it belongs to.
+type c20WFact struct {
+	where *c20Where
+	f     Fact
+}
+
+// c20Alt is one value a field of the sent response can have.
+type c20Alt struct {
+	where *c20Where
+	val   ssa.Value  // nil: the field is left at its zero value
+	own   bool       // the field of the response being broadcast itself (the response is passed on as a whole)
+	stale bool       // the definition may stem from an earlier iteration of the broadcast loop …
+	carry []c20WFact // … and this is what holds whenever it does
+	facts []c20WFact // what is known whenever this alternative is the one that is sent
+}
+
+func c20WithFacts(have []c20WFact, w *c20Where, fs []Fact) []c20WFact {
+	out := append([]c20WFact{}, have...)
+	for _, f := range fs {
+		out = append(out, c20WFact{w, f})
+	}
+	return out
+}
+
+func c20StructFieldIndex(t types.Type, field string) int {
+	if pt, ok := t.Underlying().(*types.Pointer); ok {
+		t = pt.Elem()
+	}
+	st, ok := t.Underlying().(*types.Struct)
+	if !ok {
+		return -1
+	}
+	for i := 0; i < st.NumFields(); i++ {
+		if st.Field(i).Name() == field {
+			return i
+		}
+	}
+	return -1
+}
+
+// c20FieldAlts enumerates the values field `field` of the struct value v can have, judged per way
+// the value is built: a composite literal or a variable filled field by field (per reaching
+// definition, with the conditions of the ways it reaches the use), a merge of several such values,
+// the result of a statically called helper (per return of the helper), or the broadcast response
+// itself. why is non-empty when the value is built in a way that is not recognised.
+func (p *Program) c20FieldAlts(w *c20Where, v ssa.Value, field string, use ssa.Instruction, facts []c20WFact, stale bool, depth int) (alts []c20Alt, why string) {
+	if depth > 8 {
+		return nil, "value is built through too many steps"
+	}
+	v = stripConv(v)
+	switch x := v.(type) {
+	case *ssa.Const:
+		if x.Value == nil {
+			return []c20Alt{{where: w, stale: stale, facts: facts}}, "" // T{}: every field is zero
+		}
+	case *ssa.Parameter:
+		if w.parent == nil {
+			if !types.Identical(x.Type(), w.typ) {
+				return nil, "parameter " + x.Name() + " is not a response"
+			}
+			return []c20Alt{{where: w, own: true, stale: stale, facts: facts}}, ""
+		}
+		i := paramIndex(w.fn, x)
+		if i < 0 || i >= len(w.call.Call.Args) {
+			return nil, "parameter " + x.Name() + " cannot be related to an argument"
+		}
+		return p.c20FieldAlts(w.parent, w.call.Call.Args[i], field, w.call, facts, stale, depth+1)
+	case *ssa.UnOp:
+		a, isAlloc := x.X.(*ssa.Alloc)
+		if x.Op != token.MUL || !isAlloc {
+			return nil, p.describe(v) + " is not a local response value"
+		}
+		idx := c20StructFieldIndex(a.Type(), field)
+		if idx < 0 {
+			return nil, "no field " + field
+		}
+		defs, ok := p.fieldDefsAt(a, idx, x, w.barrier)
+		if !ok {
+			return nil, "the address of " + p.describe(a) + " escapes"
+		}
+		for _, d := range defs {
+			fs := c20WithFacts(facts, w, d.Facts)
+			st := stale || d.ViaBarrier
+			var carry []c20WFact
+			if d.ViaBarrier {
+				carry = c20WithFacts(nil, w, d.BarrierFacts)
+			}
+			switch {
+			case d.Whole != nil:
+				sub, why := p.c20FieldAlts(w, d.Whole, field, d.At, fs, st, depth+1)
+				if why != "" {
+					return nil, why
+				}
+				alts = append(alts, sub...)
+			case d.Val == nil:
+				alts = append(alts, c20Alt{where: w, stale: st, facts: fs})
+			default:
+				for _, m := range p.c20ExpandMerge(w, d.Val, fs, st, 0) {
+					m.carry = carry
+					alts = append(alts, m)
+				}
+			}
+		}
+		return alts, ""
+	case *ssa.Phi:
+		for i, e := range x.Edges {
+			pred := x.Block().Preds[i]
+			if x.Block().Dominates(pred) {
+				return nil, "response carried over from a previous iteration"
+			}
+			sub, why := p.c20FieldAlts(w, e, field, use, c20WithFacts(facts, w, p.FactsOnEdge(pred, x.Block())), stale, depth+1)
+			if why != "" {
+				return nil, why
+			}
+			alts = append(alts, sub...)
+		}
+		return alts, ""
+	case *ssa.Call:
+		callee := staticCallee(x.Common())
+		if callee == nil || len(callee.Blocks) == 0 {
+			return nil, "response is the result of " + p.describe(v) + ", whose body is not known"
+		}
+		for u := w; u != nil; u = u.parent {
+			if u.fn == callee {
+				return nil, "recursive helper " + callee.Name()
+			}
+		}
+		child := &c20Where{fn: callee, call: x, parent: w, typ: w.typ}
+		fs := c20WithFacts(facts, w, p.FactsAt(x.Block()))
+		n := 0
+		for _, rc := range p.returnCases(callee) {
+			if callee.Recover != nil && rc.Ret.Block() == callee.Recover {
+				continue
+			}
+			if len(rc.Results) != 1 || rc.Results[0] == nil {
+				return nil, "helper " + callee.Name() + " does not return one response"
+			}
+			n++
+			sub, why := p.c20FieldAlts(child, rc.Results[0], field, rc.Ret, c20WithFacts(fs, child, rc.Facts), stale, depth+1)
+			if why != "" {
+				return nil, why
+			}
+			alts = append(alts, sub...)
+		}
+		if n == 0 {
+			return nil, "helper " + callee.Name() + " never returns"
+		}
+		return alts, ""
+	}
+	return nil, "sent value " + p.describe(v) + " is neither a response literal, a response variable nor the result of a helper"
+}
+
+// c20ExpandMerge splits a field value that merges several values (`var pkg *T; if c { pkg = … }`)
+// into one alternative per incoming edge, with the conditions of that edge.
+func (p *Program) c20ExpandMerge(w *c20Where, v ssa.Value, facts []c20WFact, stale bool, depth int) []c20Alt {
+	ph, isPhi := stripConv(v).(*ssa.Phi)
+	if !isPhi || depth > 4 {
+		return []c20Alt{{where: w, val: v, stale: stale, facts: facts}}
+	}
+	for _, pred := range ph.Block().Preds {
+		if ph.Block().Dominates(pred) {
+			// carried around a loop: a value of an earlier iteration; judged as it is (not a fresh copy)
+			return []c20Alt{{where: w, val: v, stale: stale, facts: facts}}
+		}
+	}
+	var out []c20Alt
+	for i, e := range ph.Edges {
+		fs := c20WithFacts(facts, w, p.FactsOnEdge(ph.Block().Preds[i], ph.Block()))
+		out = append(out, p.c20ExpandMerge(w, e, fs, stale, depth+1)...)
+	}
+	return out
+}
+
+// c20OwnStruct: s denotes the response being broadcast (the parameter of the broadcasting function
+// of the sent type), directly, through the local it was spilled to, or as the argument bound to a
+// helper's parameter.
+func (p *Program) c20OwnStruct(w *c20Where, s ssa.Value, depth int) bool {
+	if depth > 8 || s == nil {
+		return false
+	}
+	s = stripConv(s)
+	switch x := s.(type) {
+	case *ssa.Parameter:
+		if w.parent == nil {
+			t := x.Type()
+			if pt, ok := t.Underlying().(*types.Pointer); ok {
+				t = pt.Elem()
+			}
+			return types.Identical(t, w.typ)
+		}
+		i := paramIndex(w.fn, x)
+		if i < 0 || i >= len(w.call.Call.Args) {
+			return false
+		}
+		return p.c20OwnStruct(w.parent, w.call.Call.Args[i], depth+1)
+	case *ssa.UnOp:
+		if a, ok := x.X.(*ssa.Alloc); ok && x.Op == token.MUL {
+			return p.c20OwnStruct(w, a, depth+1)
+		}
+	case *ssa.Alloc:
+		// a parameter spilled to a local: one whole store, never written through a field
+		var whole []*ssa.Store
+		for _, r := range referrersOf(x) {
+			switch y := r.(type) {
+			case *ssa.Store:
+				if y.Addr != ssa.Value(x) {
+					return false
+				}
+				whole = append(whole, y)
+			case *ssa.FieldAddr:
+				if derivedAddrWritten(y) {
+					return false
+				}
+			case *ssa.UnOp, *ssa.DebugRef:
+			default:
+				return false
+			}
+		}
+		return len(whole) == 1 && p.c20OwnStruct(w, whole[0].Val, depth+1)
+	}
+	return false
+}
+
+// c20OwnNilnessContradicts: the facts test the package of the response being broadcast (which does
+// not change during the broadcast) for nil with both outcomes: no execution satisfies them all.
+func (p *Program) c20OwnNilnessContradicts(facts []c20WFact) bool {
+	sawNil, sawNonNil := false, false
+	for _, wf := range facts {
+		x, trueMeansNonNil, ok := errNilTest(wf.f.Cond)
+		if !ok || !p.c20OwnField(wf.where, x, "RawPackage") {
+			continue
+		}
+		if wf.f.Pol == trueMeansNonNil {
+			sawNonNil = true
+		} else {
+			sawNil = true
+		}
+	}
+	return sawNil && sawNonNil
+}
+
+// c20OwnField: v reads field `field` of the response being broadcast.
+func (p *Program) c20OwnField(w *c20Where, v ssa.Value, field string) bool {
+	switch x := stripConv(v).(type) {
+	case *ssa.UnOp:
+		if fa, ok := x.X.(*ssa.FieldAddr); ok && x.Op == token.MUL && fieldName(fa.X.Type(), fa.Field) == field {
+			return p.c20OwnStruct(w, fa.X, 0)
+		}
+	case *ssa.Field:
+		if fieldName(x.X.Type(), x.Field) == field {
+			return p.c20OwnStruct(w, x.X, 0)
+		}
+	}
+	return false
+}
+
 func c20r5(c *Ctx) {
 	p := c.P
 	bcs := c20Broadcasts(p)
@@ -716,65 +1018,69 @@ func c20r5(c *Ctx) {
 	}
 	for _, bc := range bcs {
 		o := c.Ob(bc.Fn, "private-copy", bc.Send, "the RawPackage sent to a receiver is a DeepCopy of the pulled package made inside the loop (one per receiver), or nil only when the pulled package is nil; Err is the pull error")
-		fields, _, ok := compositeFields(bc.Send.X)
-		if !ok {
-			o.Unknown("sent value is not a response literal")
-			continue
+		root := &c20Where{fn: bc.Fn, typ: bc.Send.X.Type()}
+		if bc.Loop != nil {
+			root.barrier = bc.Loop.Head
 		}
 		var problems []string
-		if !c20ParamField(p, bc.Fn, fields["Err"], "Err") {
-			problems = append(problems, "Err is "+p.describe(fields["Err"])+", not the Err of the response being broadcast")
+		errAlts, why := p.c20FieldAlts(root, bc.Send.X, "Err", bc.Send, nil, false, 0)
+		if why != "" {
+			o.Unknown("the response sent at %s is not recognised (%s)", p.IPos(bc.Send), why)
+			continue
 		}
-		pkgV, has := fields["RawPackage"]
-		if !has {
-			problems = append(problems, "RawPackage is not set: callers get neither package nor error")
-		} else {
-			type alt struct {
-				v    ssa.Value
-				pred *ssa.BasicBlock
-				blk  *ssa.BasicBlock
+		pkgAlts, why := p.c20FieldAlts(root, bc.Send.X, "RawPackage", bc.Send, nil, false, 0)
+		if why != "" {
+			o.Unknown("the response sent at %s is not recognised (%s)", p.IPos(bc.Send), why)
+			continue
+		}
+		for _, a := range errAlts {
+			if a.own || (a.val != nil && p.c20OwnField(a.where, a.val, "Err")) {
+				continue
 			}
-			var alts []alt
-			if ph, isPhi := stripConv(pkgV).(*ssa.Phi); isPhi {
-				for i, e := range ph.Edges {
-					alts = append(alts, alt{e, ph.Block().Preds[i], ph.Block()})
-				}
-			} else {
-				alts = append(alts, alt{pkgV, nil, bc.Send.Block()})
+			what := "left unset"
+			if a.val != nil {
+				what = p.describe(a.val)
 			}
-			for _, a := range alts {
-				v := stripConv(a.v)
-				if isNilConst(v) {
-					// only when the pulled package is nil
-					var fs []Fact
-					if a.pred != nil {
-						fs = p.FactsOnEdge(a.pred, a.blk)
-					} else {
-						fs = p.FactsAt(a.blk)
+			problems = append(problems, "Err is "+what+", not the Err of the response being broadcast")
+		}
+		for _, a := range pkgAlts {
+			switch {
+			case a.own:
+				problems = append(problems, "the package being broadcast is sent as it is, not a RawPackage.DeepCopy(): receivers share the file map")
+				continue
+			case a.val == nil || isNilConst(stripConv(a.val)):
+				// only when the pulled package is nil
+				isNil := false
+				for _, wf := range a.facts {
+					x, trueMeansNonNil, ok := errNilTest(wf.f.Cond)
+					if ok && wf.f.Pol != trueMeansNonNil && p.c20OwnField(wf.where, x, "RawPackage") {
+						isNil = true
 					}
-					isNil := false
-					for _, f := range fs {
-						x, trueMeansNonNil, ok := errNilTest(f.Cond)
-						if ok && f.Pol != trueMeansNonNil && c20ParamField(p, bc.Fn, x, "RawPackage") {
-							isNil = true
-						}
-					}
-					if !isNil {
-						problems = append(problems, "nil is sent although the pulled package may be non-nil")
-					}
-					continue
 				}
-				call, _ := asCall(v)
-				if call == nil || !isCallTo(call.Common(), c20RawPkgDC) {
-					problems = append(problems, "sent package "+p.describe(v)+" is not the result of RawPackage.DeepCopy(): receivers share the file map")
-					continue
+				if !isNil {
+					problems = append(problems, "nil is sent although the pulled package may be non-nil")
 				}
-				if !c20ParamField(p, bc.Fn, callRecv(call.Common()), "RawPackage") {
-					problems = append(problems, "DeepCopy is not taken of the package being broadcast")
-				}
-				if bc.Loop != nil && !bc.Loop.Body[call.Block()] {
-					problems = append(problems, "DeepCopy at "+p.IPos(call)+" is made once outside the loop: all receivers get the same copy")
-				}
+				continue
+			}
+			v := stripConv(a.val)
+			call, _ := asCall(v)
+			if call == nil || !isCallTo(call.Common(), c20RawPkgDC) {
+				problems = append(problems, "sent package "+p.describe(v)+" is not the result of RawPackage.DeepCopy(): receivers share the file map")
+				continue
+			}
+			if !p.c20OwnField(a.where, callRecv(call.Common()), "RawPackage") {
+				problems = append(problems, "DeepCopy is not taken of the package being broadcast")
+			}
+			// the copy is made per receiver: the DeepCopy (or the call of the helper making it) runs
+			// inside the broadcast loop
+			site := ssa.Instruction(call)
+			for w := a.where; w != nil && w.call != nil; w = w.parent {
+				site = w.call
+			}
+			if bc.Loop != nil && !bc.Loop.Body[site.Block()] {
+				problems = append(problems, "DeepCopy at "+p.IPos(call)+" is made once outside the loop: all receivers get the same copy")
+			} else if a.stale && !p.c20OwnNilnessContradicts(a.carry) {
+				problems = append(problems, "the DeepCopy made at "+p.IPos(call)+" for one receiver can still be in the response variable when the next receiver is served (the variable outlives the iteration and is not reassigned on every way through the loop)")
 			}
 		}
 		if len(problems) == 0 {
